@@ -29,7 +29,7 @@ REQUIRED = ["contract:CVR.consistent_sampling", "draws_checked", "thresholds_che
             "sizes:one_exhausted", "sizes:random", "draws_with_phantoms_selected", "cards_listing_no_contest_present"]
 ASSUMPTIONS = ["distinct sample numbers; n_c <= number of cards listing c; dict keys equal contest ids; thresholds for "
                "n_c = 0 are unconstrained"]
-N_CASES = {"quick": 4800, "thorough": 200000}
+N_CASES = {"quick": 19200, "thorough": 200000}
 
 
 def reference_sample(styles, nums, sizes):
